@@ -16,6 +16,10 @@ class C11(PureCheck):
     exhaustive = {"quick": False, "thorough": True}
     assumptions = ("width classes of the alphabet as in Width.tla; ./check setup verifies cwcwidth agrees",)
 
+    def design_runs(self, tier):
+        cfg = ("SPECIFICATION Spec\nCONSTANT MaxRuns = %d\nCONSTANT MaxLen = 2\nINVARIANT WsplitOk\nCHECK_DEADLOCK FALSE\n" % (2 if tier == "quick" else 3))
+        return [dict(module="MC_Width", cfg=cfg, workers=8, timeout=3000)]
+
     def inputs(self, tier, rng):
         if tier == "thorough":
             pool = list(layouts(3, 2, alphabet=ALPHA, atts=ATTS2)) + [l for l in layouts(2, 4, alphabet=ALPHA, atts=ATTS2)]
